@@ -413,6 +413,14 @@ class Interp:
         if ty is None:
             free = [b for b in cands if '<impl at' not in b.name and (b.name == local or b.name.endswith('::' + meth) or b.name == meth)]
             free = [b for b in free if b.crate == cn] or free
+            if not free:
+                # item nested inside an inherent method (`Type::<'a>::method::nested`): unique suffix match on `::method::nested`
+                segs = local.split('::')
+                if len(segs) >= 3 and segs[-3][:1].isupper():
+                    tail = '::%s::%s' % (segs[-2], segs[-1])
+                    c2 = [b for b in cands if b.name.endswith(tail) and '<impl at' in b.name]
+                    if len(c2) == 1:
+                        return c2[0]
             return free[0] if len(free) >= 1 else None
         good = []
         for b in cands:
@@ -1040,6 +1048,21 @@ class Interp:
         saved_crate = self.cur_crate
         self.cur_crate = b.crate or self.main
         frame = {}
+        zc = getattr(b, '_zst_closures', None)
+        if zc is None:
+            # a closure without captures is a zero-sized value: rustc never assigns the local that holds it
+            zc = []
+            for l, t in b.locals.items():
+                if t.startswith('{closure@'):
+                    mz = re.match(r'^\{closure@[^}]*\}$', t)
+                    if mz:
+                        zc.append((l, t))
+            try:
+                b._zst_closures = zc
+            except AttributeError:
+                pass
+        for l, t in zc:
+            frame[l] = Agg('closure', t, None, [])
         for (l, _), v in zip(b.args, args):
             frame[l] = v
         bb = 'bb0'
